@@ -3,7 +3,7 @@
 Require Extraction.
 Require Import ExtrOcamlBasic ExtrOcamlZBigInt.
 From Coq Require Import ZArith QArith String.
-From GMGP Require Import Scalar GridDefs TridiagDefs SparseLUDefs ObjectsDefs InterpDefs StencilDefs SmootherDefs CycleDefs.
+From GMGP Require Import Scalar GridDefs TridiagDefs SparseLUDefs ObjectsDefs InterpDefs StencilDefs SmootherDefs CycleDefs GridGenDefs.
 From GMGPGen Require Import GridIndexGen SpecialMembersGen.
 
 Extraction Language OCaml.
@@ -55,6 +55,13 @@ Definition q_resid := @resid Qsc.
 Definition q_smoother_blocks := smoother_blocks.
 Definition q_ext_smoother_blocks := ext_smoother_blocks.
 
+Definition q_gen_radii_uniform := @gen_radii_uniform Qsc.
+Definition q_gen_angles := @gen_angles Qsc.
+Definition q_radii_valid_b := @radii_valid_b Qsc.
+Definition q_close_b := @close_b Qsc.
+Definition q_increasing_b := @increasing_b Qsc.
+Definition q_midpoints_b := @midpoints_b Qsc.
+
 Extraction "model"
   Qsc Qltb Qred Qplus Qminus Qmult Qdiv Qopp Qle_bool Qeq_bool
   Z.add Z.sub Z.mul Z.opp Z.pow Z.ltb Z.eqb Z.of_nat Z.to_nat Pos.add Pos.mul
@@ -70,4 +77,6 @@ Extraction "model"
   q_P_row q_R_row q_Pex_row q_Rex_row q_Inj_row q_FMG_row wrap1
   q_A_take_row q_A_give_row q_rhs_weight
   q_block_update q_resid q_smoother_blocks q_ext_smoother_blocks
-  cyc ecyc top_cycle init_ops solve_loop live_in all_writes ev_reads ev_writes.
+  cyc ecyc top_cycle init_ops solve_loop live_in all_writes ev_reads ev_writes
+  aniso_indices aniso_accept aniso_in_bounds choose_levels gen_nr gen_ntheta
+  q_gen_radii_uniform q_gen_angles q_radii_valid_b q_close_b q_increasing_b q_midpoints_b.
